@@ -238,7 +238,8 @@ class World:
             cfg['identification'] = [('C 9 0', 'R 9 0 !')] if sc.get('bytes') else [('C90', 'R90$')]
             if 'retry_first_idn' in sc and not sc.get('bytes'):
                 cfg['retry_first_idn'] = sc['retry_first_idn']
-        io = base('io', LoggerStub('io'), cfg, Srv())
+        self.srv = Srv()
+        io = base('io', LoggerStub('io'), cfg, self.srv)
         orig_ident = io.checkHWIdent
 
         def checkHWIdent():
@@ -260,16 +261,12 @@ def cmd_text(gid):
     return f'C{gid}'
 
 
-def run_scenario(sc, strategy, max_steps=20000):
-    """sc: dict(bytes=bool, callers=[[txn...]], behaviour={gid: (...)}, poller=bool, drop_at=..., refuse=n,
-               callbacks=n, horizon=seconds)
-       a txn is ('comm', gid) | ('multi', [(gid, expect_reply, delay), ...]) | ('write', gid)"""
-    w = World(sc, strategy, max_steps)
+def make_device(w, sc):
+    """the simulated instrument (thread body): parses commands, answers according to sc['behaviour']"""
     s = w.sched
     dev = w.dev
     is_bytes = bool(sc.get('bytes'))
     varlen = bool(sc.get('varlen'))
-    RL = 2 if varlen else 4      # reply (header) length for the byte-oriented variant
 
     def reply_bytes(gid):
         if varlen:
@@ -334,6 +331,27 @@ def run_scenario(sc, strategy, max_steps=20000):
             elif kind == 'close':
                 dev.open = False
                 s.log(ev='dev_close')
+
+    return device
+
+
+def run_scenario(sc, strategy, max_steps=20000):
+    """sc: dict(bytes=bool, callers=[[txn...]], behaviour={gid: (...)}, poller=bool, drop_at=..., refuse=n,
+               callbacks=n, horizon=seconds)
+       a txn is ('comm', gid) | ('multi', [(gid, expect_reply, delay), ...]) | ('write', gid)"""
+    w = World(sc, strategy, max_steps)
+    s = w.sched
+    dev = w.dev
+    is_bytes = bool(sc.get('bytes'))
+    varlen = bool(sc.get('varlen'))
+    RL = 2 if varlen else 4      # reply (header) length for the byte-oriented variant
+
+    def reply_bytes(gid):
+        if varlen:
+            return b'R\x04%02d!!' % gid
+        return (b'R%02d!' % gid) if is_bytes else (b'R%d\n' % gid)
+
+    device = make_device(w, sc)
 
     def caller(i, txns):
         io = w.io
